@@ -4,6 +4,7 @@ import (
 	"encoding/base64"
 	"encoding/json"
 	"fmt"
+	"google.golang.org/protobuf/types/descriptorpb"
 	"net/url"
 	"os"
 	"strconv"
@@ -189,13 +190,19 @@ func runCase(c conCase) ([]vf.Failure, error) {
 		}
 		preps[i] = p
 	}
-	// sequential model
+	// the model: every distinct operation "run alone" - on a codec of its own that
+	// has seen nothing else (a type whose schema cannot be built fails there; on a
+	// shared codec it must fail the same way whatever was used before it)
 	want := map[op]result{}
 	for _, th := range c.Threads {
 		for _, o := range th {
 			if _, ok := want[o]; !ok {
 				p := preps[o.Msg]
-				want[o] = doOp(private, o, p.md, p.msg, p.doc, p.q)
+				alone := private
+				if c.Shared != "global" {
+					alone = s.NewCodec()
+				}
+				want[o] = doOp(alone, o, p.md, p.msg, p.doc, p.q)
 			}
 		}
 	}
@@ -264,6 +271,34 @@ func run(t *testing.T, lane string) {
 		// default codec, is cold for them
 		pkg := "c10p" + strconv.Itoa(pid) + "n" + strconv.FormatInt(pkgCounter.Add(1), 10) + ".v1"
 		res := pgen.Draw(t, pgen.Supported, pkg)
+		// a type whose schema cannot be built (a map with integer keys), reachable
+		// from the others where they refer to it: every operation on it is an error,
+		// before and after anything else was used
+		unbuildable := false
+		if len(res.File.MessageType) >= 2 && rapid.IntRange(0, 3).Draw(t, "unbuildable") == 0 {
+			victim := res.File.MessageType[rapid.IntRange(1, len(res.File.MessageType)-1).Draw(t, "unbuildablemsg")]
+			var maxNum int32
+			for _, f := range victim.Field {
+				if f.GetNumber() > maxNum {
+					maxNum = f.GetNumber()
+				}
+			}
+			entry := &descriptorpb.DescriptorProto{
+				Name: proto.String("ByNumberEntry"),
+				Field: []*descriptorpb.FieldDescriptorProto{
+					{Name: proto.String("key"), JsonName: proto.String("key"), Number: proto.Int32(1), Type: descriptorpb.FieldDescriptorProto_TYPE_INT32.Enum(), Label: descriptorpb.FieldDescriptorProto_LABEL_OPTIONAL.Enum()},
+					{Name: proto.String("value"), JsonName: proto.String("value"), Number: proto.Int32(2), Type: descriptorpb.FieldDescriptorProto_TYPE_STRING.Enum(), Label: descriptorpb.FieldDescriptorProto_LABEL_OPTIONAL.Enum()},
+				},
+				Options: &descriptorpb.MessageOptions{MapEntry: proto.Bool(true)},
+			}
+			victim.NestedType = append(victim.NestedType, entry)
+			victim.Field = append(victim.Field, &descriptorpb.FieldDescriptorProto{
+				Name: proto.String("by_number"), JsonName: proto.String("byNumber"), Number: proto.Int32(maxNum + 1),
+				Type: descriptorpb.FieldDescriptorProto_TYPE_MESSAGE.Enum(), TypeName: proto.String("." + pkg + "." + victim.GetName() + ".ByNumberEntry"),
+				Label: descriptorpb.FieldDescriptorProto_LABEL_REPEATED.Enum(),
+			})
+			unbuildable = true
+		}
 		s, err := codecx.NewSchema(res.File)
 		if err != nil {
 			t.Fatalf("generator: %v", err)
@@ -364,6 +399,9 @@ func run(t *testing.T, lane string) {
 		}
 		if len(crossRoots) == 2 {
 			cls = append(cls, "types-in-three-packages")
+		}
+		if unbuildable {
+			cls = append(cls, "unbuildable-type")
 		}
 		r.Eval(nt2, vf.Hash(c.Roots, c.Msgs, c.Threads), cls...)
 		if nt2 && r.WantSample() {
